@@ -98,6 +98,15 @@ theorem drainS_heap_independent (H1 H2 : Heap) (links : Option LinkFn) (less : L
       rw [drainS_heap_independent H1 H2 links less sw n _ _ _ (stepHeap_perm links x1 hrest)
         (stepHeap_nodup links x1 rest1 hnd1)]
 
+/-- a second heap instance: the same scan over the reversed slice (prefers the right-most minimal element) -/
+def scanHeapR : Heap where
+  pop := fun lt l => popMin lt l.reverse
+  pop_nil := fun _ => rfl
+  pop_perm := fun lt l h => by
+    obtain ⟨x, rest, hp, hperm⟩ := popMin_perm lt l.reverse (by simpa using h)
+    exact ⟨x, rest, hp, hperm.trans (List.reverse_perm l)⟩
+  pop_min := fun lt l x rest sw h => popMin_min lt sw l.reverse x rest h
+
 /-! ### sorted + per-input order determine the list -/
 
 theorem pairLess_total (less : Less) (p q : Nat × Rec) (h1 : pairLess less p q = false) (h2 : pairLess less q p = false) :
